@@ -38,6 +38,8 @@ def apply_moves(mesh, moves):
     for mv in moves:
         if mv == "translate":
             mesh.Translate(1.5, -1.0, 0.5)
+        elif mv == "far":
+            mesh.Translate(100000.0, 100000.0, 0.0)
         elif mv == "rotz":
             mesh.Rotate(ANGLE, (1, 0.5, 0), (0, 0, 1))
         elif mv == "rotx":
@@ -82,7 +84,9 @@ def run_case(job):
                 wJ = np.asarray(g.Get_weightedJacobian_e_pg(MatrixType.mass))
                 xg = np.asarray(g.Get_GaussCoordinates_e_pg(MatrixType.mass))
                 nsum += np.einsum("ep,epd->d", wJ, n)
-                flux += np.einsum("ep,epd,epd->", wJ, xg, n)
+                # position vector taken from the image of the origin of the unmoved mesh: by closure the flux does not depend on the
+                # origin, and summing numbers of the size of the mesh (not of its distance to the origin) avoids cancellation noise
+                flux += np.einsum("ep,epd,epd->", wJ, xg - b, n)
             if np.abs(nsum).max() > 1e-10 * meas:
                 viol.append((f"normals-closure/{key}", f"{key}: the boundary normals do not close the domain: int n dS = {nsum}", {"frame": frame, "elem": elem}))
             elif abs(abs(flux) - dim * meas) > 1e-9 * meas:
